@@ -432,14 +432,17 @@ let push_scope g s =
   then s
   else { tn_scoped = (sv_push_scope s.tn_scoped); tn_maps = s.tn_maps }
 
-(** val pop_scope : bool -> bool -> tn -> tn option **)
+(** val pop_scope : bool -> bool -> bool -> tn -> tn option **)
 
-let pop_scope fx g s =
+let pop_scope fx fs g s =
   if g
   then Some s
-  else (match sv_pop_scope (erase_cb fx) s.tn_scoped s.tn_maps with
-        | Some p -> let (v, m) = p in Some { tn_scoped = v; tn_maps = m }
-        | None -> None)
+  else (match s.tn_scoped.sv_limits with
+        | [] -> if fs then Some s else None
+        | _ :: _ ->
+          (match sv_pop_scope (erase_cb fx) s.tn_scoped s.tn_maps with
+           | Some p -> let (v, m) = p in Some { tn_scoped = v; tn_maps = m }
+           | None -> None))
 
 (** val erase_direct : bool -> name -> tn -> (tn * bool) option **)
 
@@ -482,7 +485,7 @@ let df_pop d =
   | None -> None
 
 type fixes = { fx_erase : bool; fx_assert : bool; fx_pop : bool;
-               fx_names : bool }
+               fx_names : bool; fx_guard : bool }
 
 type status =
 | StUndef
@@ -602,7 +605,7 @@ let pop1 fx b =
     (match rest with
      | [] -> None
      | _ :: _ ->
-       (match pop_scope fx.fx_erase b.b_global b.b_names with
+       (match pop_scope fx.fx_erase fx.fx_guard b.b_global b.b_names with
         | Some x ->
           (match df_pop b.b_defs with
            | Some d ->
